@@ -5,6 +5,7 @@
   (exact `sqrt`, `cos`, `sin`, `π`), with the constants of `Generated/EulerConsts.lean`.
 -/
 import AbacusVerif.Lemmas.C18
+import AbacusVerif.Lemmas.C18Cover
 
 namespace AbacusVerif.Euler16
 open AbacusVerif AbacusVerif.EulerConsts
@@ -190,26 +191,21 @@ theorem norm_cap_edge :
   constructor <;> norm_num
 
 /-
-  The coverage clause of the property, in full:
-
-    theorem coverage (v : V3 ℝ) (hv : dot v v = 1) :
-        ∃ code, code < NCODE ∧
-          Real.arccos |dot v (decode code : Triad ℝ).major| ≤ cellSize          -- "about 4 degrees"
-
-  is NOT proved.  What is proved (`coverage_partial`):
+  The coverage clause of the property ("the decoded major axes cover all directions, up to sign, to
+  within the angular cell size of the format (about 4 degrees)") is proved below as `coverage`, with
+  the explicit bound `1 − (v·major)² ≤ 0.00665`, i.e. an angle of at most arcsin √0.00665 = 4.678° to
+  `±major`.  `coverage_partial` is its first layer and is kept as a theorem of its own:
     (1) up to sign, every vector lies in the closed region `|xx| ≤ yy ≤ zz` of one of the twelve cap
         arrangements `majorOf cap` (the 12 caps × 2 signs of `xx` × 2 overall signs are the 48 chambers
         of the octahedral group), so no direction is outside all caps;
     (2) inside a cap the cell centres form a net of the parameter square `(t, r) ∈ [0,1] × [-1,1]`
         (`t = (it+½)/TBIN`, `r = (ir+½)/(it+½) − 1`): every `t` is within `1/(2·TBIN)` of a bin centre and,
-        in row `it`, every `r` is within `1/(2·it+1)` of a bin centre;
-  together with `norm_cap_edge` (the parameter edge `t = 1` is the cap edge `yy = zz`), the range
-  lemmas `tParam_range`, `rParam_range` and the strict monotonicity `gfun_strictMono` in Lemmas/C18.lean.
-  Missing: that `(t, r) ↦ (r·g(t/NORM), g(t/NORM), 1)/‖·‖` maps the parameter square ONTO the cap region
-  (an intermediate-value argument for `g`) and a modulus of continuity of that map turning the
-  parameter half-widths of (2) into an angle of at most the stated cell size.  The covering radius of
-  the implementation's 1452 decoded major axes is measured by the harness (harness/props/c18.py,
-  reported as a test: ≈ 3.14 degrees on a 2·10⁶-point grid).
+        in row `it`, every `r` is within `1/(2·it+1)` of a bin centre.
+  What is NOT proved: the exact covering radius.  The bound of `coverage` is the radius of a cell seen
+  from its own centre (the direction is compared with the centre of the cell whose bins contain it; for
+  the single cell of row 0 that radius really is ≈ 4.54°), whereas the measured covering radius of the
+  1452 decoded axes is 3.14° (harness/props/c18.py, a test) because a direction near a cell corner is
+  closer to the centre of a neighbouring cell or cap.
 -/
 theorem coverage_partial :
     (∀ v : V3 ℝ, ∃ cap, cap < NCAP ∧ ∃ σ : ℝ, (σ = 1 ∨ σ = -1) ∧ ∃ x y z : ℝ,
@@ -228,5 +224,66 @@ theorem coverage_partial :
 example : ∃ cap, cap < NCAP ∧ ∃ σ : ℝ, (σ = 1 ∨ σ = -1) ∧ ∃ x y z : ℝ,
     |x| ≤ y ∧ y ≤ z ∧ scale3 (⟨1 / 3, -2 / 3, 2 / 3⟩ : V3 ℝ) σ = majorOf cap x y z :=
   coverage_partial.1 _
+
+/-- **coverage.**  For every unit vector `v` there is a valid code whose decoded major axis `m`
+satisfies `1 − (v·m)² ≤ 0.00665`: the angle between `v` and `+m` or `−m` is at most
+`arcsin √0.00665 = 4.678°` ("about 4 degrees").  Proof (Lemmas/C18Cover.lean): up to sign `v` lies in
+a cap region `|x| ≤ y ≤ z` (`coverage_partial`); there `v ∝ (ρ·q, q, s)` with `s = 1 − u²`,
+`q = u·√(2 − u²)`, `0 ≤ u ≤ 0.5411962` (this interval contains the exact cap edge
+`√(1 − 1/√2) = 0.54119610…` and the last bin edge `1/EULER_NORM` of the generated constant, so the
+1e-16 gap between the two is covered whatever its sign), `|ρ| ≤ 1`; `u` is within `0.0246` of a bin
+centre `uOf it` and `ρ` within `1/(2it+1)` of an `r` centre; the decoded centre is
+`∝ (r·qc, qc, sc)`, and `sin² ≤ |A×B|² = (1+r²)σ² + 2rσ·e·sc + e²` with `σ = sin(φ − φc)`,
+`|σ| ≤ 2·|u − uc|/1.3065`, `e = (ρ − r)·q`; each of the 11 rows is bounded numerically (`row_bound`). -/
+theorem coverage (v : V3 ℝ) (hv : dot v v = 1) :
+    ∃ code, code < NCODE ∧
+      1 - (dot v (decode code : Triad ℝ).major) ^ 2 ≤ 665 / 100000 := by
+  obtain ⟨cap, hcap, σ, hσ, x, y, z, hxy, hyz, hmaj⟩ := coverage_partial.1 v
+  have hσ2 : σ ^ 2 = 1 := by rcases hσ with h | h <;> rw [h] <;> norm_num
+  have hunit : x * x + y * y + z * z = 1 := by
+    rw [← majorOf_dot cap hcap x y z x y z, ← hmaj, dot_scale_scale, hσ2, hv, mul_one]
+  obtain ⟨it, ir, hit, hir, hb⟩ := cell_cover x y z hunit hxy hyz
+  have hvalid : ValidSplit ⟨cap, it, ir, 0⟩ := ⟨hcap, hit, hir, (by decide : 0 < EULER_ABIN)⟩
+  obtain ⟨hbij, -, hsj⟩ := split_bijective
+  refine ⟨join ⟨cap, it, ir, 0⟩, ?_, ?_⟩
+  · obtain ⟨c, hc, hcs⟩ := hbij.2.2 hvalid
+    have : c = join ⟨cap, it, ir, 0⟩ := by
+      have h2 := split_bijective.2.1 c
+      rw [hcs] at h2; exact h2.symm
+    rw [← this]; exact hc
+  · rw [decode_major, hsj _ hvalid]
+    show 1 - (dot v (majorOf cap (cellDir it ir).1 (cellDir it ir).2.1 (cellDir it ir).2.2)) ^ 2 ≤ _
+    have e : (dot v (majorOf cap (cellDir it ir).1 (cellDir it ir).2.1 (cellDir it ir).2.2)) ^ 2 =
+        (x * (cellDir it ir).1 + y * (cellDir it ir).2.1 + z * (cellDir it ir).2.2) ^ 2 := by
+      rw [← majorOf_dot cap hcap, ← hmaj, dot_scale_left, mul_pow, hσ2, one_mul]
+    rw [e]; exact hb
+
+
+-- non-vacuity: a unit vector in none of the coordinate planes
+example : ∃ code, code < NCODE ∧
+    1 - (dot (⟨1 / 3, -2 / 3, 2 / 3⟩ : V3 ℝ) (decode code : Triad ℝ).major) ^ 2 ≤ 665 / 100000 :=
+  coverage _ (by simp only [dot]; norm_num)
+
+/-- **coverage_degrees.**  The same in degrees: the angle `arccos |v·m|` between a unit vector `v` and
+the line of the nearest decoded major axis found by `coverage` is at most 4.7° (`|v·m| ≤ 1`, so the
+`arccos` is the angle). -/
+theorem coverage_degrees (v : V3 ℝ) (hv : dot v v = 1) :
+    ∃ code, code < NCODE ∧ |dot v (decode code : Triad ℝ).major| ≤ 1 ∧
+      Real.arccos |dot v (decode code : Triad ℝ).major| ≤ 47 / 10 * (Real.pi / 180) := by
+  obtain ⟨code, hc, h⟩ := coverage v hv
+  refine ⟨code, hc, ?_, arccos_le_of_sin2 (abs_nonneg _) (by rw [sq_abs]; exact h)⟩
+  have hm := (decode_orthonormal code hc).1
+  have hL := dot_cross_self v (decode code : Triad ℝ).major
+  rw [hv, hm] at hL
+  have h0 := dot_self_nonneg (cross v (decode code : Triad ℝ).major)
+  rw [← sq_le_one_iff_abs_le_one]
+  linarith
+
+-- non-vacuity
+example : ∃ code, code < NCODE ∧
+    Real.arccos |dot (⟨2 / 7, 3 / 7, -6 / 7⟩ : V3 ℝ) (decode code : Triad ℝ).major|
+      ≤ 47 / 10 * (Real.pi / 180) := by
+  obtain ⟨c, h1, -, h2⟩ := coverage_degrees ⟨2 / 7, 3 / 7, -6 / 7⟩ (by simp only [dot]; norm_num)
+  exact ⟨c, h1, h2⟩
 
 end AbacusVerif.Euler16
